@@ -18,7 +18,7 @@ BUDGET = {"quick": 6000, "thorough": 800000}
 SHRINK = {"quick": False, "thorough": True}
 RULE = (
     "Hypothesis draws M in 10^[-1,12], tau in 10^[-3,5], a recovery curve (IdealReservoir and real-gas "
-    "SinglePhaseReservoir interpolators simulated once per worker to t/tau = 6, an IdealReservoir interpolator simulated only to t/tau = 2, the analytic Fourier series, a smooth synthetic "
+    "SinglePhaseReservoir interpolators simulated once per worker to t/tau = 6, an IdealReservoir interpolator simulated only to t/tau = 2, cubic / quadratic-extrapolating scipy interpolators over a 30-point table of the analytic curve, the analytic Fourier series, a smooth synthetic "
     "monotone curve), a time array of 50..400 samples (uniform or quadratic) and a case kind: 'scaling' (linearity "
     "in M, joint rescaling of t and tau by dyadic and arbitrary factors), 'bounded-fit' (finite / half-infinite / "
     "default Bounds, positive data whose unconstrained optimum may lie outside, default guesses outside on "
@@ -51,6 +51,16 @@ def curve(name):
         r.simulate(np.linspace(0, np.sqrt(2.0), 500) ** 2)
         r.recovery_factor()
         return r.recovery_factor_interpolator()
+    if name in ("cubic", "previous-extrapolate"):
+        # other kinds of scipy interpolator over a coarse table of the analytic curve: the forecaster must use the
+        # curve it was given (its interpolation kind, its fill values), whatever class it is
+        from scipy.interpolate import interp1d
+
+        ana = curve("analytic")
+        tt = np.linspace(0.0, np.sqrt(6.0), 30) ** 2
+        if name == "cubic":
+            return interp1d(tt, ana(tt), kind="cubic", bounds_error=False, fill_value=(0.0, float(ana(tt[-1:])[0])))
+        return interp1d(tt, ana(tt), kind="quadratic", bounds_error=False, fill_value="extrapolate")
     if name == "ideal":
         r = IdealReservoir(40, 500.0, 5000.0, None)
         r.simulate(t)
@@ -81,7 +91,7 @@ def strategy_(draw):
     kind = draw(st.sampled_from(["scaling", "bounded-fit", "bounded-fit", "fixed-tau", "guess", "bad-bounds", "round-trip", "round-trip"]))
     c = {
         "kind": kind,
-        "curve": draw(st.sampled_from(["ideal", "realgas", "analytic", "synthetic", "ideal-short"])),
+        "curve": draw(st.sampled_from(["ideal", "realgas", "analytic", "synthetic", "ideal-short", "cubic", "previous-extrapolate"])),
         "logM": draw(st.floats(-1.0, 12.0)),
         "logtau": draw(st.floats(-3.0, 5.0)),
         "n": draw(st.integers(50, 400)),
@@ -145,7 +155,13 @@ def check_case(case) -> Result:
     kind = case["kind"]
     res.labels["kind"] = kind
     res.labels["curve"] = case["curve"]
-    rf = curve(case["curve"])
+    cname = case["curve"]
+    if kind == "round-trip" and cname in ("cubic", "previous-extrapolate"):
+        # the round-trip clause is about the physical recovery curves; an oscillating cubic interpolant of a coarse
+        # table gives the least-squares problem other local minima (seen on the unchanged tree) - scaling-law kinds only
+        cname = "analytic"
+    res.labels["curve"] = cname
+    rf = curve(cname)
     M, tau = 10.0 ** case["logM"], 10.0 ** case["logtau"]
     t = _times(case, tau)
 
